@@ -14,6 +14,7 @@ Rule, per site (the `Overflow:Sub` assert MIR carries for the checked subtractio
   3. anything else is reported: an unguarded subtraction of run-time lengths.
 """
 import itertools
+import re
 from ..facts import AnchorLost
 from ..expr import ExprBuilder, show, subexprs
 from ..cond import reach_formula, eval_formula, eval_expr, Unevaluable
@@ -24,7 +25,7 @@ SCOPE = 'skalo::'
 INVARIANTS = {
     ('skalo::compaction::compact_graph', 'len(&*vec_visited) - 1'):
         'only vectors with len() > 1 are inserted into `compacted` (the `if vec_visited.len() > 1` before insert)',
-    ('skalo::input::build_graph::{closure#0}', '*upvar:len_kmer - 1'):
+    ('skalo::input::build_graph', 'len_kmer - 1'):
         'len_kmer is the k of the .skf (odd, >= 5: validated when the file was built)',
     ('skalo::positioning::scan_variants', 'len(&seq) - len_kmer_graph'):
         'variant sequences are built as k_graph + (nodes - 1) characters with nodes >= 2 (read_graph)',
@@ -50,11 +51,11 @@ INVARIANTS = {
         'as above',
     ('skalo::process_variants::find_internal_indels', 'len(&*sequence) - k_graph'):
         'variant sequences are at least k_graph + 1 long (k_graph characters of the entry k-mer plus one per further node)',
-    ('skalo::read_graph::build_variant_groups::{closure#0}::{closure#0}', '(len(&vec_visited) + *upvar:*data_info.0) - 1'):
+    ('skalo::read_graph::build_variant_groups', '(len(&vec_visited) + data_info.0) - 1'):
         'k_graph >= 4',
-    ('skalo::read_graph::build_variant_groups::{closure#0}::{closure#0}', 'i - 1'):
+    ('skalo::read_graph::build_variant_groups', 'i - 1'):
         'i == 0 is the entry k-mer, which is in start_kmers and passes the first test (0 <= len - k_graph), so this branch has i >= 1',
-    ('skalo::read_graph::build_variant_groups::{closure#0}::{closure#0}::{closure#2}', 'len(&*v) - 2'):
+    ('skalo::read_graph::build_variant_groups', 'len(&*v) - 2'):
         'paths in tmp_container start as [entry, first] and only grow: len >= 2',
 }
 
@@ -76,7 +77,15 @@ def _atoms(e, out):
 
 
 def _norm(s):
+    """expression text normalised so that moving the statement into / out of a closure keeps its key: captured variables
+    (`*upvar:x`) read like the variable itself"""
+    s = re.sub(r"\*?upvar:\*?", '', s)
     return s.replace('(*', '*(').replace('  ', ' ')
+
+
+def _owner(name):
+    """function owning a (possibly nested) closure body"""
+    return re.sub(r"(::\{closure#\d+\})+$", '', name)
 
 
 import re
@@ -221,7 +230,7 @@ def check(facts, chk, rule):
     used = set()
     for b, eb, bb, t, le, re_ in ss:
         expr = _norm('%s - %s' % (show(le), show(re_)))
-        key = '%s:%s:%s' % (rule, b.name.replace(SCOPE, ''), expr.replace(' ', ''))
+        key = '%s:%s:%s' % (rule, _owner(b.name).replace(SCOPE, ''), expr.replace(' ', ''))
         if key in seen:
             continue
         seen.add(key)
@@ -229,9 +238,9 @@ def check(facts, chk, rule):
         if ok:
             chk.ok(rule, key, t.span, why, evals=len(GRID) ** 2)
             continue
-        inv = INVARIANTS.get((b.name, expr))
+        inv = INVARIANTS.get((_owner(b.name), expr))
         if inv is not None:
-            used.add((b.name, expr))
+            used.add((_owner(b.name), expr))
             chk.ok(rule, key, t.span, 'data invariant (confirmed by reading): %s' % inv, nontrivial=False)
         else:
             chk.violation(rule, key, where=t.span,
